@@ -37,6 +37,8 @@ finding `fixed` in `known_findings/C11.json`.
   F33      quotePairUnreadable      crtf_roundtrip_refuted_F33
   F34      keepSourceAttrs          crtf_roundtrip_refuted_F34
   F31      dropLabelcolor           (none; the last `example` of §9 mentions it)
+  F36      (no flag: the reader's `regex_meta` is modelled by `MTok.lexed`; when the regex changes, change
+           `lexScalarChars` in Impl/CrtfRead.lean; `label_lexing_refuted_F36` tells whether it still mangles)
   F32      labeloffRepr             (none; list keys are validated, not proved)
 
 When all three `crtf_roundtrip_refuted_*` are gone, `crtf_roundtrip_full Quirks.current` is
@@ -615,7 +617,8 @@ def gmeta (g : String) : AList := [(.coord, .str g)]
 
 /-- reading the writer's two header lines, then region lines only: one shape per line, all
 read under the same global meta. -/
-theorem phase1_written (q : Quirks) (qn : String → String) (g : String) (hg : g ≠ "") (c : String)
+theorem phase1_written (q : Quirks) (qn : String → String) (g : String)
+    (hg : (MTok.scalar g .none).lexed = some (.scalar g .none)) (c : String)
     (ls : List RLine) :
     phase1 q qn [] (.comment c :: .global [.pair "coord" (.scalar g .none)] :: ls.map .region)
       = ls.mapM (regionShape q qn (gmeta g)) := by
@@ -662,8 +665,8 @@ theorem roundtrip_list (q : Quirks) (qn : String → String) (o : Opts) (rs : Li
         rw [h2] at hs
         simp only [pure, Except.pure, Except.ok.injEq] at hs
         subst hs
-        have hgne : g ≠ "" := by
-          have : ∀ p ∈ coordsysTable, p.2 ≠ "" := by decide +kernel
+        have hgne : (MTok.scalar g .none).lexed = some (.scalar g .none) := by
+          have : ∀ p ∈ coordsysTable, (MTok.scalar p.2 .none).lexed = some (.scalar p.2 .none) := by decide +kernel
           exact this _ (lookup_mem _ _ _ hg)
         unfold parse at hp
         rw [phase1_written q qn g hgne] at hp
@@ -1537,6 +1540,13 @@ def isScalar : MVal → Bool
   | .str _ | .int _ | .bool _ => true
   | _ => false
 
+/-- the value survives the reader's tokenisation: `regex_meta` hands the written text back as it
+is (no quote character, no blank at an end, not empty; see the header of the metadata section of
+`Impl/CrtfRead.lean`).  Decidable; it is exactly the class of values the reader does not mangle. -/
+def LexOK (k : Key) (v : MVal) : Prop := (pairTok k v).lexed = some (.scalar v.pyStr .none)
+
+instance (k : Key) (v : MVal) : Decidable (LexOK k v) := by unfold LexOK; infer_instance
+
 /-- the longitude `b` stored in the region object, from the longitude `v` the line denotes:
 a pixel coordinate is kept, a sky longitude is wrapped into `[0, 360)` — the same position. -/
 def LonOf (v b : ℚ) : Prop := b = v ∨ b = wrap360 v
@@ -1608,26 +1618,21 @@ structure RT (q : Quirks) (o : Opts) (r : WReg) (x : RReg) : Prop where
            (x.pts.map fun p => (p.1.v, p.2.v)) (x.sizes.map (·.v)) (x.angle.map (·.v))
   incl : x.mt.get? .include = some (.bool (!wExcl r))
   ann : x.mt.get? .type = some (.str (if wAnn r then "ann" else "reg"))
-  scalar : ∀ k v, scalarKey q k = true → (mergedMeta r).get? k = some v → isScalar v = true → v.pyStr ≠ "" →
+  scalar : ∀ k v, scalarKey q k = true → (mergedMeta r).get? k = some v → LexOK k v →
              (if isViz k then x.vis else x.mt).get? k = some (.str v.pyStr)
-  label : r.kind ≠ .text → ∀ v, (mergedMeta r).get? .label = some v → isScalar v = true → v.pyStr ≠ "" →
+  label : r.kind ≠ .text → ∀ v, (mergedMeta r).get? .label = some v → LexOK .label v →
              x.mt.get? .label = some (.str v.pyStr)
   text : r.kind = .text → ∀ v, (shapeMeta q r).get? .text = some v → x.text = some v.pyStr
 
 theorem gmeta_get (g : String) (k : Key) (h : k ≠ .coord) : (gmeta g).get? k = none := by
   simp [gmeta, AList.get?, Ne.symm h]
 
-theorem tokValue_scalar (k : Key) (v : MVal) (hk : isListKey k = false) (hl : k ≠ .label ∨ v = .str "")
-    (hs : isScalar v = true) : pairTok k v = .scalar v.pyStr .none ∧
-      tokValue false k (pairTok k v) = .str v.pyStr := by
-  have hp : pairTok k v = .scalar v.pyStr .none := by
-    unfold pairTok
-    rcases hl with hl | hl
-    · simp only [hl, false_and, if_false]
-      cases v <;> simp_all [isScalar]
-    · subst hl; simp
-  rw [hp]
-  exact ⟨rfl, by simp [tokValue, hk]⟩
+theorem tokValue_scalar (k : Key) (v : MVal) (hk : isListKey k = false) (hlex : LexOK k v) :
+    (pairTok k v).isEmptyScalar = false ∧ tokValue false k (pairTok k v) = .str v.pyStr := by
+  unfold LexOK at hlex
+  constructor
+  · simp [MTok.isEmptyScalar, hlex]
+  · simp [tokValue, hlex, hk]
 
 theorem written_geometry' (R R2 : ℚ → ℚ → Prop) (q : Quirks) (o : Opts)
     (hR : ∀ x, R x (fmtDec o.prec x).val) (hR2 : ∀ w, R2 w (2 * (fmtDec o.prec (w / 2)).val))
@@ -1834,7 +1839,7 @@ theorem chain_rt (q : Quirks) (qn : String → String) (o : Opts) (g : String) (
     unfold wAnn
     by_cases hh : (mergedMeta r).get? .type = some (.str "ann") <;> simp [hh]
   · -- scalar CRTF keys
-    intro kk v hsk hget hsc hne
+    intro kk v hsk hget hlex
     have hkk : kk ≠ .include ∧ kk ≠ .type ∧ kk ≠ .range ∧ kk ≠ .coord ∧ kk ≠ .symbol ∧ kk ≠ .text ∧
         kk ≠ .labeloff ∧ kk ≠ .corr ∧ kk ≠ .label ∧ isListKey kk = false ∧ writerSkip q kk = false ∧
         writerValid q kk = true := by
@@ -1843,16 +1848,15 @@ theorem chain_rt (q : Quirks) (qn : String → String) (o : Opts) (g : String) (
     have hw : (writerMeta q s).get? kk = some v := by rw [wm_get kk n9 n6 nval, hget]
     have hp := path kk n1 n2 n3 n4 n5 n6 n7 n8
     rw [assigned_pairItems q _ kk hnw hvw, nsk, hw] at hp
-    obtain ⟨t1, t2⟩ := tokValue_scalar kk v nl (Or.inl n9) hsc
-    rw [t1] at t2
-    simp only [Bool.false_eq_true, if_false, t1, t2, MTok.isEmptyScalar, hne, decide_false] at hp
+    obtain ⟨t1, t2⟩ := tokValue_scalar kk v nl hlex
+    simp only [Bool.false_eq_true, if_false, t1, t2] at hp
     by_cases hz : isViz kk
     · simp only [hz, if_true]
       rw [x_vis, hsp2 kk, if_pos hz, hp]
     · simp only [hz, Bool.false_eq_true, if_false]
       rw [x_mt, hsp1 kk (by simpa using hz) n1 n9, hp]
   · -- label
-    intro hkt v hget hsc hne
+    intro hkt v hget hlex
     have hw : (writerMeta q s).get? .label = some v := by
       unfold writerMeta
       rw [get?_filterKeys s.mt (writerValid q) .label, s_mt]
@@ -1861,10 +1865,8 @@ theorem chain_rt (q : Quirks) (qn : String → String) (o : Opts) (g : String) (
       rw [if_neg hkt]; exact hget
     have hp := path .label (by decide) (by decide) (by decide) (by decide) (by decide) (by decide) (by decide) (by decide)
     rw [assigned_pairItems q _ .label hnw hvw, hw] at hp
-    have hvne : v ≠ .str "" := by intro e; subst e; simp [MVal.pyStr] at hne
-    have hpt : pairTok .label v = .scalar v.pyStr .single := by simp [pairTok, hvne]
-    simp only [writerSkip, Bool.false_eq_true, if_false, hpt, MTok.isEmptyScalar, hne, decide_false,
-      tokValue, isListKey] at hp
+    obtain ⟨t1, t2⟩ := tokValue_scalar .label v rfl hlex
+    simp only [writerSkip, Bool.false_eq_true, if_false, t1, t2] at hp
     rw [x_mt]
     exact hsp_label _ hp
   · -- text
@@ -2663,8 +2665,8 @@ theorem roundtrip_list_ok (q : Quirks) (qn : String → String) (o : Opts) (g : 
   have e2 := (mapM_ok_iff _ _ _).mpr h2
   have e3 := (mapM_ok_iff _ _ _).mpr h3
   have e4 := (mapM_ok_iff _ _ _).mpr h4
-  have hgne : g ≠ "" := by
-    have : ∀ p ∈ coordsysTable, p.2 ≠ "" := by decide +kernel
+  have hgne : (MTok.scalar g .none).lexed = some (.scalar g .none) := by
+    have : ∀ p ∈ coordsysTable, (MTok.scalar p.2 .none).lexed = some (.scalar p.2 .none) := by decide +kernel
     exact this _ (lookup_mem _ _ _ hg)
   refine ⟨.comment "CRTFv0" :: .global [.pair "coord" (.scalar g .none)] :: lines.map .region, ?_, ?_⟩
   · unfold serialize
@@ -3007,9 +3009,10 @@ theorem crtf_fixed_point (q : Quirks) (qn : String → String) (o : Opts) (g : S
 produces is — are written and read back verbatim; include sense and annotation type are
 kept (clauses `incl`, `ann`, `scalar`, `label` of `RT` applied to the parsed region). -/
 theorem crtf_fixed_point_meta (q : Quirks) (o : Opts) (w : WReg) (x' : RReg) (h : RT q o w x')
-    (k : Key) (t : String) (hk : scalarKey q k = true) (hv : (mergedMeta w).get? k = some (.str t)) (ht : t ≠ "") :
+    (k : Key) (t : String) (hk : scalarKey q k = true) (hv : (mergedMeta w).get? k = some (.str t))
+    (ht : LexOK k (.str t)) :
     (if isViz k then x'.vis else x'.mt).get? k = some (.str t) :=
-  h.scalar k (.str t) hk hv rfl ht
+  h.scalar k (.str t) hk hv ht
 
 /-- `ellipse_axes_swap_involutive`: the writer puts `[height/2, width/2]` on the line, the
 reader doubles and swaps back: `width`, `height` come back in their places as twice the
@@ -3109,6 +3112,39 @@ example : rtOK Quirks.fixed ⟨"fk5", 3, "deg"⟩
 /-- F31: `labelcolor` is in the reader's vocabulary but not in the writer's: it does not
 survive (the `scalar` clause of `RT` covers it only once the writer knows the key). -/
 example : scalarKey Quirks.current .labelcolor = false ∧ scalarKey Quirks.fixed .labelcolor = true := by decide
+
+/-! ### labels and other quoted values (F36)
+
+`regex_meta` does not pair quotes up: the value of `key='…'` ends at the NEXT quote character or
+comma and is stripped.  The `label` / `scalar` clauses of `RT` therefore carry the decidable
+hypothesis `LexOK` (the written token is handed back unchanged); at full strength — every
+non-empty label comes back — the clause is refuted. -/
+
+/-- full-strength clause: every non-empty label, written as `label='…'`, is read back as it is. -/
+def label_lexing_full : Prop :=
+  ∀ s : String, s ≠ "" → (MTok.scalar s .single).lexed = some (.scalar s .none)
+
+/-- F36: `label='beam 3.5"'` is read as `beam 3.5` (also `it's` -> `it`, `"M42"` -> `M42`,
+` lead` -> `lead`). -/
+theorem label_lexing_refuted_F36 : ¬ label_lexing_full := by
+  intro h
+  have := h "beam 3.5\"" (by decide)
+  revert this
+  decide +kernel
+
+/-- partial: that is exactly `LexOK`, the hypothesis of `RT.label` / `RT.scalar`; ordinary labels meet it. -/
+example : LexOK .label (.str "My label here") ∧ LexOK .label (.str "a=b #1") ∧ LexOK .color (.str "light blue") ∧
+    LexOK .linewidth (.int 2) := by decide +kernel
+
+example : ¬ LexOK .label (.str "it's") ∧ ¬ LexOK .label (.str " lead") ∧ ¬ LexOK .label (.str "\"M42\"") ∧
+    ¬ LexOK .label (.str "") := by decide +kernel
+
+/-- what the reader makes of them. -/
+example : (MTok.scalar "it's" .single).lexed = some (.scalar "it" .none) ∧
+    (MTok.scalar "\"M42\"" .single).lexed = some (.scalar "M42" .none) ∧
+    (MTok.scalar "\"" .single).lexed = some (.scalar "'" .none) ∧
+    (MTok.scalar "" .single).lexed = some (.scalar "'" .none) ∧
+    (MTok.scalar "" .none).lexed = none := by decide +kernel
 
 /-! ## 10. non-vacuity: concrete inputs meet the hypotheses of the conditional theorems -/
 
